@@ -169,6 +169,7 @@ class C02(Check):
             '{USIM_WAITQUEUE unset, SD} x {python, python -O}, each with seeded heap perturbation and twice per worker; '
             'all event logs must be identical; plus the FIFO invariant on the activation/schedule streams. non-trivial = a time '
             'step with >=3 activations of distinct activities in a program using >=3 primitive families; distinct by sha1.')
+    quick_boost = False
     budgets = {'quick': dict(examples=900, procs=2), 'thorough': dict(examples=12000, procs=4)}
     level_text = ('Differential testing across configurations: identical normalised event logs (which activity does what, at which '
                   'time, in which order, with which values) in 13 executions per program that differ in process, hash seed, heap '
